@@ -20,18 +20,18 @@ const modPath = "github.com/XiaoMi/Gaea"
 
 // Ctx is the loaded, type-checked, SSA-built program plus lazily built call graph.
 type Ctx struct {
-	Repo     string
-	Tier     string
-	Fset     *token.FileSet
-	Pkgs     []*packages.Package // root packages
-	AllPkgs  map[string]*packages.Package
-	Prog     *ssa.Program
-	SSAPkgs  map[string]*ssa.Package // by import path (module packages only)
-	Funcs    []*ssa.Function         // every function (incl. anonymous) whose source file is in the module and is not a _test.go file
-	cg       *callgraph.Graph
-	cgEdges  int
-	allFuncs map[*ssa.Function]bool
-	Arch386  bool
+	Repo                 string
+	Tier                 string
+	Fset                 *token.FileSet
+	Pkgs                 []*packages.Package // root packages
+	AllPkgs              map[string]*packages.Package
+	Prog                 *ssa.Program
+	SSAPkgs              map[string]*ssa.Package // by import path (module packages only)
+	Funcs                []*ssa.Function         // every function (incl. anonymous) whose source file is in the module and is not a _test.go file
+	cg                   *callgraph.Graph
+	cgEdges              int
+	allFuncs             map[*ssa.Function]bool
+	Arch386              bool
 	onceChecked, onceBad bool
 }
 
